@@ -183,7 +183,9 @@ pub fn record(n: u64) {
                 let v = random_component(&mut rng, true);
                 text.push(',');
                 text.push_str(&escape(&k));
-                if !(v.is_empty() && rng.chance(1, 2)) {
+                // a key without '=' has an empty value; an argument whose key is empty too is always written with its '=':
+                // without it, it would be no argument at all but the trailing comma the syntax ignores
+                if !(v.is_empty() && !k.trim().is_empty() && rng.chance(1, 2)) {
                     text.push('=');
                     text.push_str(&escape(&v));
                 }
